@@ -91,6 +91,11 @@ def run_case(ck, lib, case):
       lib.mj_step1(m, b)
       set_inputs(m, b, iseed + i)
       lib.mj_step2(m, b)
+      if dc.warning_numbers(lib, a).sum() or dc.warning_numbers(lib, b).sum():
+        # a bad-state warning fired: autoreset wipes inputs set before mj_step but not those set after mj_step1
+        # (documented reset semantics, property C30) -> the equivalence is only claimed for regular steps
+        ck.discard('warning-during-compared-step')
+        return
       cmp_all(lib, m, a, b, pa, pb, 'step12: step %d' % i)
       nefc_seen = max(nefc_seen, int(a.nefc))
   elif rel in ('skipPOS', 'skipVEL', 'invPOS', 'invVEL'):
